@@ -242,6 +242,12 @@ func checkC06(p *Prog, r *Report) {
 	for _, f := range []string{F("FeatureLocal.subscriptions"), F("FeatureLocal.bindings")} {
 		applyRetain(p, r, "R6", "spine", "FeatureLocal", "CleanRemoteEntityCaches", retainSpec{Field: f, Required: map[string]string{"device": "=Device", "entity": "=Entity"}})
 	}
+	r.Rule("R10", "every generated entry carries its own state: a local variable whose address is stored into an object (lastStateChange of a generated 'added' / 'removed' entry) is never assigned again once its address was handed to an object (not later in the function, not in the next iteration of the loop that stores it) — never one variable shared by all entries and reassigned")
+	sharedCellLint(p, r, "R10", "spine", "model")
+	r.Rule("R9", "the clean-up steps of the removal cascade are atomic: the subscription and the binding list are read, filtered and stored inside one critical section, so that removing one entity never loses what another peer registered meanwhile (shared with C08-R9/C09-R7)")
+	lsC06 := BuildLockset(p, "spine", "model")
+	rebuildAtomic(p, lsC06, r, "R9", F("SubscriptionManager.subscriptionEntries"), 3)
+	rebuildAtomic(p, lsC06, r, "R9", F("BindingManager.bindingEntries"), 3)
 	r.Assumes("getters of the remote device tree are uninterpreted")
 }
 
@@ -409,6 +415,10 @@ func entityRemovalCascade(p *Prog, r *Report, ruleA, ruleB string) {
 		}
 		nRemovers++
 		base := FnName(fn)
+		// the loop over the announced entries runs to the end: a notification may add one entity and remove another
+		if ab := loopAbandoned(removal.Block()); true {
+			r.Check(ruleB, base+"|every-entry-processed", len(ab) == 0, p.InstrPos(removal), fmt.Sprintf("the loop over the announced entity entries is left early only by returning an error; other exits: %v", ab))
+		}
 		arg := Path(callArgs(&removal.Call)[0])
 		elem := strings.TrimSuffix(arg, ".Description.EntityAddress.Entity")
 		tested := ""
